@@ -834,6 +834,8 @@ def summarize(run):
         polls=[dict(k0=p["k0"], k1=p.get("k1"), n=p.get("c1", p["c0"]) - p["c0"], it=p["it"]) for p in run.polls],
         result=None,
     )
+    if run.job.get("want_init_points"):
+        out["init_points"] = [c["x"].tolist() for c in calls if c["phase"] in ("init", "construct")]
     if r is not None:
         out["result"] = dict(
             x=np.ravel(r["x"]).tolist(), fval=float(r["fval"]), fsd=(None if r["fsd"] is None else float(r["fsd"])),
